@@ -46,8 +46,11 @@ M33_CORE12 = emask(3, 3, lambda a, q, r: a >= 1 and q != r)     # core edges on 
 FILLED = [LTS(3, 1, 0, FILL=30), LTS(3, 1, 0, FILL=33, MULT=1, OUTSYM=0),
           LTS(3, 3, 0, EMASK=M33_CORE12, FILL=30, OUTSYM=0),       # the core's (label,state) keys straddle the boundary between counter rows 0 and 1
           LTS(3, 3, 0, EMASK=M33_CORE12, FILL=29, OUTSYM=0), LTS(3, 3, 0, EMASK=M33_CORE12, FILL=31, OUTSYM=0)]
+# filler states that form a chain (pairwise different): the partition grows one split at a time past 64 / 128 blocks, the
+# word boundaries of the per-block bit masks
+CHAINED = [LTS(2, 1, 0, FILL=67, FILLCHAIN=None), LTS(2, 2, 0, FILL=66, FILLCHAIN=None, OUTSYM=0), LTS(2, 1, 0, FILL=131, FILLCHAIN=None, OUTSYM=0)]   # (MODE 0 only: the harness does not put filler states into a supplied partition)
 QUICK = [
-  FILLED[0], FILLED[2],
+  FILLED[0], FILLED[2], CHAINED[0], CHAINED[1],
   # no initial partition: greatest simulation preorder
   LTS(2, 1, 0, MULT=1),                       # 8 edge bits (parallel edges) + 2 output-size bits
   LTS(2, 2, 0, MULT=1),                       # 16 + 2
@@ -65,7 +68,7 @@ QUICK = [
   LTS(3, 1, 1, REV=1),                        # 9 + 2 + 3 + 1 + 6: every 3-state single-label system with every partition/preorder
   LTS(3, 2, 1, EMASK=M32['src'], OUTSYM=0),   # 12 + 3 + 6
 ]
-THOROUGH = QUICK + [FILLED[1], FILLED[3], FILLED[4]] + [
+THOROUGH = QUICK + [FILLED[1], FILLED[3], FILLED[4], CHAINED[2]] + [
   LTS(3, 2, 0, **HEAVY),                                                                 # all 18 edges + 2
   LTS(3, 2, 0, EMASK=M32['loop+b']),
   LTS(2, 2, 1, MULT=1, REV=1),
